@@ -119,6 +119,7 @@ def check_C11(report, tier, seed):
     # garbage, reset anywhere): same responses from model and implementation, and never a panic
     S.exhaustive(report, "C11", 3 if tier == "quick" else 4)
     S.pubrel_race_family(report, "C11")
+    S.trailing_empty_field_family(report, "C11")
     # a server that follows the protocol is never reported as violating it: which inbound size limit is in force
     import suites_codec
     suites_codec.suite_engine_inbound_size(report, "C11")
@@ -163,6 +164,7 @@ def check_C08(report, tier, seed):
     S.monitor_strict(report, walks, "C08")
     S.due_timeout_family(report, "C08")
     S.delayed_ping_spin_family(report, "C08")
+    S.trailing_empty_field_family(report, "C08")
 
 
 def check_C19(report, tier, seed):
